@@ -250,6 +250,8 @@ def unit_monitor(name, case, impl):
                 return "the call failed with %s and left %s changed by %s" % (impl["rc"], what, impl["fields"][k])
         if impl["fields"].get("dm", "0") != "0":
             return "the call failed with %s and left %s block(s) of libuv's allocator behind" % (impl["rc"], impl["fields"]["dm"])
+        if impl["fields"].get("dw", "0") != "0":
+            return "the call failed with %s and changed the number of kernel inotify watches by %s" % (impl["rc"], impl["fields"]["dw"])
         if name in ("udp_send", "getaddrinfo", "fs_stat", "fs_rename", "accept", "write2", "fs_poll_start", "os_environ") and \
                 impl["fields"].get("df", "0") != "0":
             return "the call failed with %s and left descriptors behind (df=%s)" % (impl["rc"], impl["fields"].get("df"))
@@ -280,7 +282,7 @@ def unit_compare(impl, model_line, prefix_only):
     else:
         if mrc != irc:
             diffs.append("result %s vs model %s" % (irc, mrc))
-        for k in ("dr", "dh", "dq", "dm", "df"):
+        for k in ("dr", "dh", "dq", "dm", "df", "dw"):
             if k in impl["fields"] and impl["fields"][k] != mm.get(k):
                 diffs.append("%s %s vs model %s" % (k, impl["fields"][k], mm.get(k)))
         if mm.get("cb", "-") != "-" and mm["cb"] != impl["cb"]:
@@ -391,6 +393,8 @@ def monitor(scen, plan, kind, ref, out, resolver):
         for v in vs:
             if "!r" in v or "!h" in v:
                 probs.append(("acct", "%s=%s: a failed call changed the request/handle counters" % (k, v)))
+            if "!w" in v:
+                probs.append(("acct", "%s=%s: a failed call changed the number of kernel inotify watches" % (k, v)))
     for k in m:
         if k == "CAP":
             probs.append(("spin", "uv_run(UV_RUN_ONCE) returned 5000 times without any progress (%s callback(s) still outstanding): "
@@ -401,6 +405,8 @@ def monitor(scen, plan, kind, ref, out, resolver):
         if m.get("alive", ["?"])[0] != "0" or m.get("reqs", ["?"])[0] != "0" or m.get("loop_close", ["?"])[0] != "0":
             probs.append(("loop_not_closable", "alive=%s reqs=%s loop_close=%s after closing every handle" %
                           (m.get("alive", ["?"])[0], m.get("reqs", ["?"])[0], m.get("loop_close", ["?"])[0])))
+    if m.get("watches_end", ["0"])[0] != "0":
+        probs.append(("watch_leak", "%s kernel inotify watch(es) left after every handle was stopped and closed" % m["watches_end"][0]))
     if m.get("fdleak", ["0"])[0] != "0":
         probs.append(("fdleak", "descriptors left open: %s" % m["fdleak"][0]))
     if m.get("fdlost", ["0"])[0] != "0":
@@ -412,7 +418,7 @@ def monitor(scen, plan, kind, ref, out, resolver):
     # outcome clause
     fired = m.get("fired", ["0"])[0] != "0"
     devs, lost, extra = [], [], []
-    skip = {"fired", "live", "fdleak", "fdlost", "lsan", "alive", "reqs", "loop_close"}
+    skip = {"fired", "live", "fdleak", "fdlost", "lsan", "alive", "reqs", "loop_close", "watches_end"}
     for k, vs in m.items():
         if k in skip or k.startswith("WATCHDOG") or k in ("CAP", "stall") or k.startswith("info."):
             continue
@@ -461,7 +467,7 @@ def monitor(scen, plan, kind, ref, out, resolver):
                       "missing %s extra %s" % (lost[:4], extra[:4])))
     if not probs:
         return None
-    prio = ["acct", "pool_size", "spin", "loop_not_closable", "no_completion", "eintr_not_transparent", "wrong_value", "lost_event",
+    prio = ["acct", "watch_leak", "pool_size", "spin", "loop_not_closable", "no_completion", "eintr_not_transparent", "wrong_value", "lost_event",
             "fdleak", "fdlost", "memleak", "lsan"]
     probs.sort(key=lambda p_: (prio.index(p_[0]) if p_[0] in prio else len(prio), p_[1]))
     return (probs[0][0], "; ".join(t for _, t in probs[:3]))
